@@ -39,6 +39,7 @@ def families(tier):
         {'name': 'A8', 'params': {'hist': 'BF', 'kinds': ['is_dir']}},
     ]
     q.append({'name': 'backups', 'params': {}, 'weight': 1})
+    q.append({'name': 'P2', 'params': {'hist': 'BF', 'universe': ['o', 'o/d', 'o/dx']}, 'weight': 1})
     q.append({'name': 'A8b', 'params': {'hist': 'BMF', 'kinds': ['is_dir'], 'mut_paths': ['o/d/z', 'o/d/e'], 'catch': False}, 'weight': 1})
     q.append({'name': 'S1', 'params': {'hist': 'F'}, 'weight': 1})
     q.append({'name': 'S1', 'params': {'hist': 'BF'}, 'weight': 1})
@@ -109,7 +110,7 @@ def check_rollback(eng, w, d, pre, prev_created, sig):
     eng.check('C02.temp-dir-left', not w.tmp_leftovers(), sig)
 
 
-def backups_family(eng, P):
+def backups_family(eng, P, prop='C02'):
     """FileBackups in isolation at an arbitrary backup index (the backup path arithmetic only changes shape after 128 and
     128**2 backups, far beyond what a generated build reaches): three files moved aside at indices i, i+1 and i+128 must
     all come back, bytes and mtime, after restore_all().  The index is an engine hole over [0, 128*129+130)."""
@@ -128,10 +129,10 @@ def backups_family(eng, P):
             r2 = fb.back_up_and_remove(f2)
             fb._next_backup_index = i + 128
             r3 = fb.back_up_and_remove(f3)
-            eng.check('C02.backup-refused', r1 is True and r2 is True and r3 is True, sig + ('index-class-%d' % (0 if i < 128 else 1 if i < 128 * 128 else 2),),
+            eng.check(prop + '.backup-refused', r1 is True and r2 is True and r3 is True, sig + ('index-class-%d' % (0 if i < 128 else 1 if i < 128 * 128 else 2),),
                       info={'index': i, 'results': [r1, r2, r3]})
             mid = w.fs.snapshot(w.root)
-            eng.check('C02.backup-did-not-move-file', not any(p in mid for p in (f1, f2, f3)), sig, info={'index': i})
+            eng.check(prop + '.backup-did-not-move-file', not any(p in mid for p in (f1, f2, f3)), sig, info={'index': i})
             w.user_write(w.fs, f1, eng.fresh_int('newcontent'))      # the build overwrites one of them
             fb.restore_all()
             post = w.fs.snapshot(w.root)
@@ -139,11 +140,11 @@ def backups_family(eng, P):
             for p in (f1, f2, f3):
                 a, b = pre.get(p), post.get(p)
                 if b is None or b[0] != 'F':
-                    eng.check('C02.file-lost', False, sig + (w.rel(p),), info={'index': i, 'path': w.rel(p)})
+                    eng.check(prop + '.file-lost', False, sig + (w.rel(p),), info={'index': i, 'path': w.rel(p)})
                 conds.append(L.eq(a[2], b[2]))
                 conds.append(L.eq(a[3], b[3]))
-            eng.check('C02.bytes-and-mtime', L.and_(*conds), sig)
-        eng.check('C02.temp-dir-left', not w.tmp_leftovers(), sig)
+            eng.check(prop + '.bytes-and-mtime', L.and_(*conds), sig)
+        eng.check(prop + '.temp-dir-left', not w.tmp_leftovers(), sig)
         eng.note('nontrivial:backup-index-%s' % ('lt128' if i < 128 else 'lt16384' if i < 16384 else 'ge16384'))
         eng.witness('rolled-back')
         if i % 4000 == 0:
@@ -156,7 +157,8 @@ def harness(eng, fam, P):
     if fam == 'backups':
         return backups_family(eng, P)
     bodies = skeleton(eng, fam, P)
-    progs = [Program(eng, b) for b in bodies]
+    shared = {}
+    progs = [Program(eng, b, shared) for b in bodies]
     eng.path_info['program'] = ' || '.join(show(b) for b in bodies)
     w = World(eng, P.get('universe', U7), sandbox=getattr(eng, 'sandbox', None))
     try:
